@@ -215,6 +215,30 @@ def _main(rep, tier):
                 rep.fail("Position equality is not structural for an instance of a subclass", {"position": s1})
         except PostBroken as e:
             rep.fail("contract|comparison-disagrees-with-tuple", {"error": str(e)[-200:]})
+    # a user subclass of Position that ADDS a field and inherits the operators: the six operators still
+    # agree with comparing the (line, character) pairs (the statement names the pair, not "all fields")
+    import attrs as _attrs
+    import operator as _op
+
+    @_attrs.define(eq=False, order=False)
+    class Token(P):
+        length: int = 0
+
+    for (s1, e1) in rngs[:8]:
+        for x, y in ((Token(*s1, 5), P(*e1)), (P(*s1), Token(*e1, 5)), (Token(*s1, 5), Token(*e1, 7)), (Token(*s1, 5), Token(*s1, 7)), (Token(*s1, 5), P(*s1)), (P(*s1), Token(*s1, 5))):
+            n_sub += 1
+            ta, tb = (x.line, x.character), (y.line, y.character)
+            for name, f in (("==", _op.eq), ("!=", _op.ne), ("<", _op.lt), ("<=", _op.le), (">", _op.gt), (">=", _op.ge)):
+                try:
+                    got = f(x, y)
+                except PostBroken as e:
+                    rep.fail("contract|comparison-disagrees-with-tuple", {"error": str(e)[-200:]})
+                    continue
+                except Exception as e:
+                    rep.fail("Position comparison raises for an instance of a subclass with an extra field", {"op": name, "a": repr(x), "b": repr(y), "error": repr(e)})
+                    continue
+                if got is not f(ta, tb):
+                    rep.fail("Position comparison disagrees with the (line, character) pairs for an instance of a subclass with an extra field", {"op": name, "a": [type(x).__name__, ta], "b": [type(y).__name__, tb], "got": repr(got)})
     # the same properties in an optimised interpreter (`python -O`: asserts and `if __debug__` vanish)
     import subprocess as _sp
 
